@@ -170,6 +170,13 @@ CHECK_DEADLOCK FALSE
 		if err := dumpAndReplay(c, tmc, 30*time.Minute); err != nil {
 			return err
 		}
+		t2 := mcRun{"MC_AutogradTensor2", 3, 1, false, false}
+		if err := modelCheck(c, t2, 30*time.Minute); err != nil {
+			return err
+		}
+		if err := dumpAndReplay(c, t2, 30*time.Minute); err != nil {
+			return err
+		}
 		// larger graphs, symbolic values: pseudo-random and hand-written DAG skeletons, gradients by the definition
 		c.Logf("TLC generating DAG skeletons (Gen_C01) and their gradients by definition")
 		parts := 8
